@@ -1,18 +1,21 @@
 """Check of the name family: C12 (see namesfamily.py for the pipeline).
 
-Violation keys (root causes):
+Violation keys (one per root cause; the witness is normalised to character classes / derivations):
   ("attr", "not-identifier", <classes of the characters that break the identifier>)
-  ("attr", "keyword"|"reserved", <the attribute name>)       ("attr", "source-lost", ..)
+  ("attr", "keyword"|"reserved", <the attribute name>)
+  ("attr", "source-lost", "empty-name"|<class seq>)     the JSON name is not recorded
   ("attr", "exception"|"parse-error", <exception type>)
-  ("collision", "<derivation>~<derivation>")   two different sibling names, one attribute; the two
-                                               derivations of the shared output character
+  ("collision", "<derivation>~<derivation>")   two different sibling names, one attribute: the two
+                                               derivations of the output character they share
   ("collision", "unpredicted", "<class seq> | <class seq>")  a real collision the model lacks
-  ("siblings", <what>, "<class seq> | ...")    properties/required lost in another way
-  ("generated", "siblings", "<class seq> | ...")  lost only in the generated module
+  ("siblings", <what>, "<class seq> | ...")    properties / required entries lost in another way
+  ("generated", <clause>, <reason>)            name usable in the parsed class, lost in the module
+                                               rebuilt from the generated code
   ("class-name", "empty"|"not-identifier"|"keyword"|"shadows"|"duplicate", <class name>)
 """
 import json
 import time
+import unicodedata
 from collections import Counter, defaultdict
 
 import common
@@ -31,8 +34,8 @@ def _sigkeys(sig):
 
 
 def _norm_attr(a):
-    """attribute names as the compiler sees them in a class body called T: NFKC-normalised,
-    and `__x` (not ending in `__`) mangled to `_T__x`; compare modulo both"""
+    """attribute names as the compiler sees them in the body of a class called T: NFKC-normalised,
+    and `__x` (not ending in `__`) mangled to `_T__x`; attribute names are compared modulo both"""
     a = nfkc(a)
     if a.startswith("_T__") and not a.endswith("__"):
         a = a[2:]
@@ -43,14 +46,21 @@ def _norm_props(props):
     return sorted((_norm_attr(a), s, bool(r)) for a, s, r in props)
 
 
-def _gen_reason(parsed_attr, gen_attr):
-    if gen_attr == parsed_attr:
+def _gen_reason(parsed_attrs, gen_attr):
+    if len({nfkc(p) for p in parsed_attrs}) < len(set(parsed_attrs)):
+        return "nfkc-normalisation"
+    if gen_attr in parsed_attrs:
         return "same-name"
-    if gen_attr == "_T" + parsed_attr:
+    if any(gen_attr == "_T" + p for p in parsed_attrs):
         return "private-name-mangling"
-    if gen_attr == nfkc(parsed_attr):
+    if any(gen_attr == nfkc(p) for p in parsed_attrs):
         return "nfkc-normalisation"
     return "other"
+
+
+def _exc_type(err):
+    parts = [p.strip() for p in err.split(":")]
+    return parts[1] if len(parts) > 1 else (parts[0] or "?")
 
 
 def run(pid, tier, replay_file=None):
@@ -58,7 +68,7 @@ def run(pid, tier, replay_file=None):
     rep = Reporter(pid, tier)
 
     def viol(key, msg, payload, n=1):
-        """count an occurrence; message and payload are built for the first one only"""
+        """count n occurrences; message and payload are built for the first one only"""
         g = rep.groups.get(key)
         if g is None:
             rep.violation(key, msg(), payload())
@@ -66,59 +76,84 @@ def run(pid, tier, replay_file=None):
             n -= 1
         g["count"] += n
 
-    by, meta = nf.stage1("quick" if replay_file and tier not in nf.TIERS else tier)
+    by, meta = nf.stage1(tier)
     table = nf.set_table(by["table"][0])
+    extra_names = None
     if replay_file:
         payload = json.load(open(replay_file))
         by = {"name": [], "sib": [], "title": [], "doc": [], "table": by["table"]}
         for st in payload.get("states", []):
             by[st["t"]].append(st)
         extra_names = payload.get("names", [])
-    else:
-        extra_names = None
     common.use_repo()
     table.validate()
     T = nf.TIERS[tier]
+    timing = {"stage1": round(time.time() - t0, 1)}
 
     names, sibs, titles, docs = by["name"], by["sib"], by["title"], by["doc"]
-    if not replay_file and any(not s["xcheck"] for s in names):
+    names.sort(key=lambda st: (len(st["name"]), flat_name(st["name"])))     # small witnesses first
+    sibs.sort(key=lambda st: (sum(len(n) for n in st["names"] + st["req"]), json.dumps(st["names"])))
+    titles.sort(key=lambda st: (len(st["title"]), st["flat"], st["use"]))
+    docs.sort(key=lambda st: (len(st["slots"]), json.dumps(st["slots"], sort_keys=True), json.dumps(st["root"])))
+    if any(not s["xcheck"] for s in names):
         bad = next(s for s in names if not s["xcheck"])
         raise MachineryError("NameClasses.AttrNameC and Names.AttrName disagree on "
                              + flat_name(bad["name"]))
 
     # ------------------------------------------------------------ stage 2: replay
+    t1 = time.time()
     name_obs = drive.pmap(nf.replay_name, names, chunksize=64)
     sib_obs = drive.pmap(nf.replay_sib, sibs, chunksize=64)
     title_obs = drive.pmap(nf.replay_title, titles, chunksize=64)
     doc_obs = drive.pmap(nf.replay_doc, docs, chunksize=64)
+    timing["replay"] = round(time.time() - t1, 1)
+    t1 = time.time()
 
     events = []          # (id, text)
     ev_info = {}         # id -> dict(kind, ...)
+    ev_sig = {}          # signature of an attribute event -> id (equivalent for R_C12_attr)
     drift = Counter()
     checked = Counter()
     nontrivial = Counter()
     kinds_seen = set()
-    skipped_events = 0
+    skipped = Counter()
 
     def add_event(text, **info):
-        nonlocal skipped_events
         eid = len(ev_info) + 1
         ev_info[eid] = info
         if len(events) < MAX_EVENTS:
             events.append((eid, text))
         else:
-            skipped_events += 1
+            skipped["events"] += 1
         return eid
 
-    def attr_key(clause, attr):
+    def add_attr_event(attr, srcok, **info):
+        text, cs, txt = nf.attr_event(table, attr, srcok)
+        sig = (tuple(cs), txt if txt in table.reserved else "", srcok,
+               info.get("kind"), info.get("origin"), info.get("reason"))
+        eid = ev_sig.get(sig)
+        if eid is not None:
+            ev_info[eid]["count"] += info.pop("count", 1)
+            return eid
+        eid = add_event(text, attr=attr, **{"count": 1, **info})
+        ev_sig[sig] = eid
+        return eid
+
+    def bad_classes(attr):
+        cs = table.classes(attr)
+        bad = sorted({c for c in cs if not table.attr[c]["xc"]})
+        if not bad and cs and not table.attr[cs[0]]["xs"]:
+            bad = ["start:" + cs[0]]
+        return "+".join(bad) if attr else "empty"
+
+    def attr_key(clause, attr, name_seq=None):
         if clause == "not-identifier":
-            cs = table.classes(attr)
-            bad = sorted({c for c in cs if not table.attr[c]["xc"]})
-            if not bad and cs and not table.attr[cs[0]]["xs"]:
-                bad = ["start:" + cs[0]]
-            return ("attr", clause, "+".join(bad) if attr else "empty")
+            return ("attr", clause, bad_classes(attr))
         if clause in ("keyword", "reserved"):
             return ("attr", clause, attr)
+        if clause == "source-lost":
+            return ("attr", clause, "empty-name" if name_seq is not None and not name_seq
+                    else (class_seq(name_seq) if name_seq else ""))
         return ("attr", clause, "")
 
     # ---------------- names: function level, parser level, generated code
@@ -129,45 +164,49 @@ def run(pid, tier, replay_file=None):
             checked["name"] += 1
             s = r["s"]
             if r["real"] is None:
-                rep.violation(("attr", "exception", r["err"].split(":")[0]),
-                              f"_parse_attribute_name({s!r}) raised {r['err']}",
-                              dict(kind="name", states=[st], map=mi))
+                viol(("attr", "exception", _exc_type("x:" + r["err"])),
+                     lambda: f"_parse_attribute_name({s!r}) raised {r['err']}",
+                     lambda: dict(kind="name", states=[st], map=mi))
                 continue
             if r["props"] is None:
-                rep.violation(("attr", "parse-error", r["err"].split(":")[1].strip() if ":" in r["err"] else r["err"]),
-                              f"object schema with property {s!r} cannot be parsed: {r['err']}",
-                              dict(kind="name", states=[st], map=mi))
+                viol(("attr", "parse-error", _exc_type(r["err"])),
+                     lambda: f"object schema with property {s!r} cannot be parsed: {r['err']}",
+                     lambda: dict(kind="name", states=[st], map=mi))
                 continue
-            want_props = [(r["exp"], s, False)]
-            same = (r["real"] == r["exp"] and r["props"] == want_props
-                    and (r["gen"] is None or _norm_props(r["gen"]) == _norm_props(want_props)))
-            if st["clause"] != "ok" or any(it["k"] != "in" for it in st["out"]):
+            want = [(r["exp"], s if st["srcok"] else r["exp"], False)]
+            fn_same = r["real"] == r["exp"]
+            props_same = r["props"] == want
+            if st["clause"] != "ok" or any(it["k"] != "in" or it["c"] != it["f"] for it in st["out"]):
                 nontrivial["name"] += 1
-            if same:
+            if fn_same and props_same:
                 if not st["ok"]:
-                    rep.violation(attr_key(st["clause"], r["real"]),
-                                  f"property name {s!r} is mapped to {r['real']!r}: {st['clause']} "
-                                  f"(classes {class_seq(st['name'])})",
-                                  dict(kind="name", states=[st], map=mi, observed=r["real"]))
-                continue
-            drift["name"] += 1
-            seen_attrs = set()
-            for attr, srcok, origin in (
-                    [(r["real"], True, "function")]
-                    + [(a, src == s, "parser") for a, src, _ in r["props"]]
-                    + [(a, src == s, "generated") for a, src, _ in (r["gen"] or [])]):
-                if (attr, srcok) in seen_attrs:
-                    continue
-                seen_attrs.add((attr, srcok))
-                text, _, _ = nf.attr_event(table, attr, srcok)
-                add_event(text, kind="name", si=si, mi=mi, attr=attr, origin=origin, s=s)
-            if len(r["props"]) != 1:
-                add_event(nf.sib_event([s], [], r["props"]), kind="name-props", si=si, mi=mi, s=s)
+                    viol(attr_key(st["clause"], r["real"], st["name"]),
+                         lambda: f"property name {s!r} is mapped to {r['real']!r}"
+                                 + (f", recorded source {r['props'][0][1]!r}"
+                                    if st["clause"] == "source-lost" else "")
+                                 + f": {st['clause']} (classes: {class_seq(st['name']) or 'empty name'})",
+                         lambda: dict(kind="name", states=[st], map=mi, observed=r["real"]))
+            else:
+                drift["name"] += 1
+                if not fn_same:
+                    add_attr_event(r["real"], True, kind="name", origin="function", s=s, si=si)
+                if not props_same:
+                    for a, src, _ in r["props"]:
+                        add_attr_event(a, src == s, kind="name", origin="parser", s=s, si=si)
+                    if len(r["props"]) != 1:
+                        add_event(nf.sib_event([s], [], r["props"]), kind="name-props", si=si, s=s)
+            if r["gen"] is not None and _norm_props(r["gen"]) != _norm_props(r["props"]):
+                drift["name-generated"] += 1
+                pattrs = [a for a, _, _ in r["props"]]
+                for a, src, _ in r["gen"]:
+                    add_attr_event(a, src == s, kind="name", origin="generated", s=s, si=si,
+                                   reason=_gen_reason(pattrs, a))
+            elif r["gen"] is None and r["err"]:
+                drift["name-generated-module-fails"] += 1
 
     # ---------------- injectivity on the pair universe (function level)
     idx = {json.dumps(s["name"], sort_keys=True): i for i, s in enumerate(names)}
-    predicted = set()
-    confirmed = Counter()
+    pairs = []
     for i, st in enumerate(names):
         if not st["paired"]:
             continue
@@ -177,24 +216,27 @@ def run(pid, tier, replay_file=None):
                 if replay_file:
                     continue
                 raise MachineryError("collider outside the exported names: " + flat_name(c["m"]))
-            if j <= i:
-                predicted.add((j, i))
-                continue
-            predicted.add((i, j))
-            checked["pair"] += 1
-            for mi in range(nf.NMAPS):
-                a, b = name_obs[i][mi], name_obs[j][mi]
-                if a["real"] is not None and a["real"] == b["real"] and a["s"] != b["s"]:
-                    confirmed[(i, j)] += 1
-                    for k in _sigkeys(c["sig"]):
-                        rep.violation(("collision", k),
-                                      f"sibling names {a['s']!r} and {b['s']!r} are both mapped to "
-                                      f"{a['real']!r} (derivations {k})",
-                                      dict(kind="collision", states=[_trim(st, c["m"]),
-                                                                     _trim(names[j], st["name"])],
-                                           map=mi, observed=a["real"]))
-                else:
-                    drift["collision-not-reproduced"] += 1
+            if i < j:
+                pairs.append((len(st["name"]) + len(c["m"]), i, j, c))
+    pairs.sort(key=lambda p: p[:3])
+    predicted = {(i, j) for _, i, j, _ in pairs}
+    confirmed = set()
+    for _, i, j, c in pairs:
+        checked["pair"] += 1
+        keys = _sigkeys(c["sig"])
+        for mi in range(nf.NMAPS):
+            a, b = name_obs[i][mi], name_obs[j][mi]
+            if a["real"] is not None and a["real"] == b["real"] and a["s"] != b["s"]:
+                confirmed.add((i, j))
+                for k in keys:
+                    viol(("collision", k),
+                         lambda: f"sibling names {a['s']!r} and {b['s']!r} are both mapped to "
+                                 f"{a['real']!r} (derivations that meet: {k})",
+                         lambda: dict(kind="collision", map=mi, observed=a["real"],
+                                      states=[_trim(names[i], names[j]["name"]),
+                                              _trim(names[j], names[i]["name"])]))
+            else:
+                drift["collision-not-reproduced"] += 1
     nontrivial["pair"] = len(predicted)
     unpredicted = []
     for mi in range(nf.NMAPS):
@@ -203,8 +245,6 @@ def run(pid, tier, replay_file=None):
             if st["paired"] and name_obs[i][mi]["real"] is not None:
                 groups[name_obs[i][mi]["real"]].append(i)
         for attr, members in groups.items():
-            if len(members) < 2:
-                continue
             for x in range(len(members)):
                 for y in range(x + 1, len(members)):
                     i, j = members[x], members[y]
@@ -225,39 +265,45 @@ def run(pid, tier, replay_file=None):
         for mi, r in enumerate(obs):
             checked["sib"] += 1
             if r["props"] is None:
-                rep.violation(("siblings", "parse-error", " | ".join(class_seq(n) for n in st["names"] + st["req"])),
-                              f"object schema with properties {r['names']!r} required {r['req']!r} "
-                              f"cannot be parsed: {r['err']}", dict(kind="sib", states=[st], map=mi))
+                viol(("siblings", "parse-error", _exc_type(r["err"])),
+                     lambda: f"object schema with properties {r['names']!r} required {r['req']!r} "
+                             f"cannot be parsed: {r['err']}",
+                     lambda: dict(kind="sib", states=[st], map=mi))
                 continue
             props = sorted((a, s, bool(q)) for a, s, q in r["props"])
             same = props == r["pred"]
-            gen_same = r["gen"] is None or _norm_props(r["gen"]) == _norm_props(r["props"])
             if not st["ok"]:
                 nontrivial["sib"] += 1
             if same and not st["ok"]:
-                keys = _sigkeys(st["sig"]) or ["?"]
-                for k in keys:
-                    rep.violation(("collision", k),
-                                  f"object with properties {r['names']!r} required {r['req']!r} gets "
-                                  f"{r['props']!r}: a JSON name is lost (derivations {k})",
-                                  dict(kind="sib", states=[st], map=mi, observed=r["props"]))
+                keys = [("collision", k) for k in _sigkeys(st["sig"])]
+                if not keys:
+                    keys = [("attr", "source-lost", "empty-name")] if any(
+                        len(n) == 0 for n in st["names"] + st["req"]) else \
+                        [("siblings", "model", " | ".join(class_seq(n) for n in st["names"] + st["req"]))]
+                for key in keys:
+                    viol(key,
+                         lambda: f"object with properties {r['names']!r} required {r['req']!r} gets "
+                                 f"{r['props']!r}: a JSON name is lost ({key[1]})",
+                         lambda: dict(kind="sib", states=[st], map=mi, observed=r["props"]))
             if not same:
                 drift["sib"] += 1
                 add_event(nf.sib_event(r["names"], r["req"], r["props"]), kind="sib", si=si, mi=mi,
                           props=r["props"], names=r["names"], req=r["req"])
-            if not gen_same:
+            if r["gen"] is not None and _norm_props(r["gen"]) != _norm_props(r["props"]):
                 drift["sib-generated"] += 1
                 add_event(nf.sib_event(r["names"], r["req"], r["gen"]), kind="sib-gen", si=si, mi=mi,
-                          props=r["gen"], names=r["names"], req=r["req"])
+                          props=r["gen"], names=r["names"], req=r["req"],
+                          reason=",".join(sorted({_gen_reason([a for a, _, _ in r["props"]], g)
+                                                  for g, _, _ in r["gen"]})))
 
     # ---------------- titles next to a library name in use
     for si, (st, obs) in enumerate(zip(titles, title_obs)):
         for mi, r in enumerate(obs):
             checked["title"] += 1
             if r["cname"] is None or r["facts"] is None:
-                rep.violation(("class-name", "parse-error", r["err"].split(":")[1].strip() if ":" in r["err"] else "?"),
-                              f"document with object title {r['title']!r} fails: {r['err']}",
-                              dict(kind="title", states=[st], map=mi))
+                viol(("class-name", "parse-error", _exc_type(r["err"])),
+                     lambda: f"document with object title {r['title']!r} fails: {r['err']}",
+                     lambda: dict(kind="title", states=[st], map=mi))
                 continue
             f = r["facts"]
             obs_names = {n for n, _ in r["classes"]}
@@ -269,11 +315,12 @@ def run(pid, tier, replay_file=None):
                 nontrivial["title"] += 1
             if same:
                 if not st["ok"]:
-                    rep.violation(("class-name", st["clause"], st["cname"]),
-                                  f"object title {r['title']!r} becomes class {st['cname']!r}: {st['clause']}"
-                                  + (f" (the module imports {obs_clash})" if obs_clash else "")
-                                  + ("" if f["compiles"] else "; the generated module does not compile"),
-                                  dict(kind="title", states=[st], map=mi, observed=r["cname"]))
+                    viol(("class-name", st["clause"], st["cname"]),
+                         lambda: f"object title {r['title']!r} becomes class {st['cname']!r}: {st['clause']}"
+                                 + (f" (the generated module imports {obs_clash} and declares a class "
+                                    "of that name)" if obs_clash else "")
+                                 + ("" if f["compiles"] else "; the generated module does not compile"),
+                         lambda: dict(kind="title", states=[st], map=mi, observed=r["cname"]))
                 continue
             drift["title"] += 1
             classes = nf._canon_uids(r["classes"])
@@ -284,9 +331,9 @@ def run(pid, tier, replay_file=None):
     for si, (st, r) in enumerate(zip(docs, doc_obs)):
         checked["doc"] += 1
         if r["slots"] is None or r["facts"] is None:
-            rep.violation(("class-name", "parse-error", r["err"].split(":")[1].strip() if ":" in r["err"] else "?"),
-                          f"document {json.dumps(r['doc'])[:200]} fails: {r['err']}",
-                          dict(kind="doc", states=[st]))
+            viol(("class-name", "parse-error", _exc_type(r["err"])),
+                 lambda: f"document {json.dumps(r['doc'])[:200]} fails: {r['err']}",
+                 lambda: dict(kind="doc", states=[st]))
             continue
         pred = nf.canon_listing(nf.predicted_listing(st))
         real = nf.canon_listing(r["slots"])
@@ -294,14 +341,14 @@ def run(pid, tier, replay_file=None):
         names_real = sorted(n for n, _ in r["classes"])
         decl_ok = f["compiles"] and sorted(f["classdefs"] or []) == names_real and not f.get("exec")
         same = pred == real and names_real == sorted(st["names"])
-        if len({u for _, _, u in pred}) < len(pred) or len(set(st["names"])) > 1 and any(
-                "_" in n for n in st["names"]):
+        if len({n.split("_")[0] for n in st["names"]}) < len(st["names"]) \
+                or len({u for _, _, u in pred}) < len(pred):
             nontrivial["doc"] += 1
         if same and decl_ok:
             if not st["ok"]:
-                rep.violation(("class-name", "model", "/".join(st["names"])),
-                              f"document {json.dumps(r['doc'])[:200]}: class names {st['names']}",
-                              dict(kind="doc", states=[st]))
+                viol(("class-name", "model", "/".join(st["names"])),
+                     lambda: f"document {json.dumps(r['doc'])[:200]}: class names {st['names']}",
+                     lambda: dict(kind="doc", states=[st]))
             continue
         drift["doc" if not same else "doc-module"] += 1
         classes = nf._canon_uids(r["classes"])
@@ -319,29 +366,21 @@ def run(pid, tier, replay_file=None):
     else:
         rnd = nf.random_names(table, T["trace_names"], T["trace_len"], common.SEED + 12)
     chunks = [rnd[k:k + 500] for k in range(0, len(rnd), 500)]
-    outs = [a for part in drive.pmap(nf.observe_names, chunks, chunksize=1, nproc=min(len(chunks), common.NPROC) or 1)
-            for a in part] if chunks else []
-    trace_ids = {}
-    seen_sig = {}
+    outs = [a for part in drive.pmap(nf.observe_names, chunks, chunksize=1) for a in part] if chunks else []
     for s, attr in zip(rnd, outs):
         checked["trace"] += 1
         if attr is None:
-            rep.violation(("attr", "exception", "?"), f"_parse_attribute_name({s!r}) raised",
-                          dict(kind="trace", names=[s]))
+            viol(("attr", "exception", "?"), lambda: f"_parse_attribute_name({s!r}) raised",
+                 lambda: dict(kind="trace", names=[s]))
             continue
-        text, cs, txt = nf.attr_event(table, attr)
-        sig = (tuple(cs), txt if txt in table.reserved else "")
-        if sig in seen_sig:
-            ev_info[seen_sig[sig]]["more"].append((s, attr))
-            continue
-        eid = add_event(text, kind="trace", s=s, attr=attr, more=[])
-        seen_sig[sig] = eid
-        trace_ids[eid] = attr
+        add_attr_event(attr, True, kind="trace", s=s)
 
     # ---------------- thorough: every code point alone and in four contexts
     sweep = None
     if tier == "thorough" and not replay_file:
-        sweep = _sweep(table, names, rep, add_event, ev_info)
+        sweep = _sweep(table, names, viol, add_attr_event)
+    timing["judge"] = round(time.time() - t1, 1)
+    t1 = time.time()
 
     # ------------------------------------------------------------ stage 3: trace validation
     adj = dict(events=0, tlc_states=0)
@@ -351,7 +390,7 @@ def run(pid, tier, replay_file=None):
             info = ev_info[eid]
             rej = rejected.get(eid)
             clause = rej["clause"] if rej else None
-            if info["kind"] in ("trace", "sweep") and "attr" in info:
+            if "attr" in info and info.get("origin") in (None, "function"):
                 # machinery self-check: TLC on the abstraction == the interpreter on the text
                 if (clause is None) != nf.gt_attr_ok(info["attr"]):
                     raise MachineryError(
@@ -359,11 +398,13 @@ def run(pid, tier, replay_file=None):
                         f"TLC says {clause or 'ok'}")
             if clause is None:
                 continue
-            _report_rejected(rep, table, names, sibs, titles, docs, info, clause, rej.get("who", ""))
-    if not replay_file and len(events) and adj.get("tlc_states", 0) < len(events):
-        raise MachineryError("trace validation did not consume every event")
+            _report_rejected(viol, attr_key, names, sibs, titles, docs, info, clause, rej.get("who", ""))
+        if adj.get("tlc_states", 0) < len(events):
+            raise MachineryError("trace validation did not consume every event")
+    timing["trace_validation"] = round(time.time() - t1, 1)
 
     # ------------------------------------------------------------ vacuity and evidence
+    witnesses = {}
     if not replay_file:
         need_kinds = {"in", "ws", "lab", "pad", "pre", "suf", "blank"}
         if not need_kinds <= kinds_seen:
@@ -379,10 +420,8 @@ def run(pid, tier, replay_file=None):
         if nontrivial["pair"] < 10 or nontrivial["name"] < 10 or nontrivial["title"] < 5 \
                 or nontrivial["doc"] < 5:
             raise MachineryError(f"vacuity: antecedent of the property never true: {dict(nontrivial)}")
-        if not any(st["paired"] for st in names):
-            raise MachineryError("vacuity: pair universe empty")
-    else:
-        witnesses = {}
+        if not adj.get("events"):
+            raise MachineryError("vacuity: no observation went through trace validation")
     samples = []
     for lst, ob in ((names, name_obs), (sibs, sib_obs), (titles, title_obs)):
         for k in (1, len(lst) // 2, len(lst) - 1):
@@ -428,15 +467,17 @@ def run(pid, tier, replay_file=None):
         derivations_seen=sorted(kinds_seen),
         checked=dict(checked), nontrivial=dict(nontrivial),
         drift=dict(drift),
-        drift_events_adjudicated=len(events), drift_events_skipped=skipped_events,
+        drift_events_adjudicated=len(events), drift_events_skipped=dict(skipped),
+        observations_represented_by_events=sum(i.get("count", 1) for i in ev_info.values()),
         class_table=dict(classes=len(table.attr), code_points_classified=len(table._cache)),
-        sweep=sweep,
+        sweep=sweep, timing=timing,
+        violation_keys={"|".join(str(x) for x in k): g["count"] for k, g in rep.groups.items()},
     )
     return rep.finish(coverage, time.time() - t0,
                       assumptions=["A1 bounded exhaustiveness (names <= MaxLen atoms, pairs within the "
                                    "pair universe, titles <= MaxTitle tokens, <= MaxSlots objects)",
                                    "A6 class table validated against the running interpreter's "
-                                   "Unicode database (unicodedata %s)" % __import__("unicodedata").unidata_version,
+                                   "Unicode database (unicodedata %s)" % unicodedata.unidata_version,
                                    "reserved attribute = dir(object) + keyword.kwlist + _dict "
                                    "(ground truth from the interpreter, not from the code under test)"])
 
@@ -449,66 +490,65 @@ def _trim(st, other):
     return t
 
 
-def _report_rejected(rep, table, names, sibs, titles, docs, info, clause, who):
+def _report_rejected(viol, attr_key, names, sibs, titles, docs, info, clause, who):
     kind = info["kind"]
+    note = " [observation differs from the model; rejected by R_C12 in trace validation]"
     if kind in ("name", "trace", "sweep"):
-        attr = info["attr"]
-        if clause == "not-identifier":
-            cs = table.classes(attr)
-            bad = sorted({c for c in cs if not table.attr[c]["xc"]})
-            if not bad and cs and not table.attr[cs[0]]["xs"]:
-                bad = ["start:" + cs[0]]
-            key = ("attr", clause, "+".join(bad) if attr else "empty")
-        elif clause in ("keyword", "reserved"):
-            key = ("attr", clause, attr)
+        attr, src, origin = info["attr"], info.get("s"), info.get("origin")
+        st = names[info["si"]] if "si" in info else None
+        if origin == "generated":
+            key = ("generated", clause, info.get("reason") or "?")
+            msg = (f"property name {src!r}: the class rebuilt from the generated module has attribute "
+                   f"{attr!r} instead: {clause} ({info.get('reason')})")
         else:
-            key = ("attr", clause, "")
-        n = 1 + len(info.get("more", [])) + info.get("count", 1) - 1
-        src = info.get("s")
-        rep.violation(key, f"property name {src!r} is mapped to {attr!r}: {clause}"
-                      + (f" (as seen by the {info['origin']})" if info.get("origin") else "")
-                      + " [observation differs from the model; rejected by R_C12 in trace validation]"
-                      * (kind != "trace"),
-                      dict(kind="trace", names=[src] + [m[0] for m in info.get("more", [])][:20],
-                           observed=attr,
-                           states=[names[info["si"]]] if "si" in info and kind == "name" else []))
-        if n > 1:
-            rep.groups[key]["count"] += n - 1
+            key = attr_key(clause, attr, st["name"] if st else None)
+            msg = (f"property name {src!r} is mapped to {attr!r}: {clause}"
+                   + (f" (as seen by the {origin})" if origin else "") + (note if kind != "trace" else ""))
+        viol(key, lambda: msg,
+             lambda: dict(kind="trace", names=[src], observed=attr, states=[st] if st else []),
+             n=info.get("count", 1))
     elif kind == "name-props":
-        rep.violation(("siblings", "single", class_seq(names[info["si"]]["name"])),
-                      f"object with the single property {info['s']!r} does not keep exactly that property",
-                      dict(kind="name", states=[names[info["si"]]]))
+        viol(("siblings", "single", class_seq(names[info["si"]]["name"])),
+             lambda: f"object with the single property {info['s']!r} does not keep exactly that property",
+             lambda: dict(kind="name", states=[names[info["si"]]]))
     elif kind == "unpredicted":
         i, j = info["i"], info["j"]
-        rep.violation(("collision", "unpredicted",
-                       " | ".join(sorted([class_seq(names[i]["name"]), class_seq(names[j]["name"])]))),
-                      f"sibling names {info['names'][0]!r} and {info['names'][1]!r} collapse: the class "
-                      f"gets {info['props']!r} (the model predicts distinct attributes)",
-                      dict(kind="collision", states=[names[i], names[j]], map=info["mi"]))
+        viol(("collision", "unpredicted",
+              " | ".join(sorted([class_seq(names[i]["name"]), class_seq(names[j]["name"])]))),
+             lambda: f"sibling names {info['names'][0]!r} and {info['names'][1]!r} collapse: the class "
+                     f"gets {info['props']!r} (the model predicts distinct attributes)",
+             lambda: dict(kind="collision", states=[names[i], names[j]], map=info["mi"]))
     elif kind in ("sib", "sib-gen"):
         st = sibs[info["si"]]
-        what = "siblings" if kind == "sib" else "generated"
-        sub = "drift" if kind == "sib" else "siblings"
-        rep.violation((what, sub, " | ".join(class_seq(n) for n in st["names"] + st["req"])),
-                      f"object with properties {info['names']!r} required {info['req']!r}: "
-                      + ("the parsed class" if kind == "sib" else "the class rebuilt from the generated module")
-                      + f" has {info['props']!r}: a JSON name is lost",
-                      dict(kind="sib", states=[st], map=info["mi"], observed=info["props"]))
+        seqs = " | ".join(class_seq(n) or "empty" for n in st["names"] + st["req"])
+        if kind == "sib-gen":
+            keys = [("generated", "siblings", info.get("reason") or "?")]
+        elif not st["ok"] and st["sig"]:
+            # the model loses a name here too (same derivations meet); only the spelling differs
+            keys = [("collision", k) for k in _sigkeys(st["sig"])]
+        else:
+            keys = [("siblings", "drift", seqs)]
+        for key in keys:
+            viol(key,
+                 lambda: f"object with properties {info['names']!r} required {info['req']!r}: "
+                         + ("the parsed class" if kind == "sib" else "the class rebuilt from the generated module")
+                         + f" has {info['props']!r}: a JSON name is lost" + note,
+                 lambda: dict(kind="sib", states=[st], map=info["mi"], observed=info["props"]))
     elif kind in ("title", "doc", "doc-module"):
         st = (titles if kind == "title" else docs)[info["si"]]
-        rep.violation(("class-name", clause, who),
-                      ("object title %r: " % info.get("title") if kind == "title" else "document: ")
-                      + f"classes {[n for n, _ in info['classes']]}"
-                      + (" declared by the generated module" if kind == "doc-module" else "")
-                      + f": {clause} {who!r} [rejected by R_C12 in trace validation]",
-                      dict(kind=kind.split("-")[0], states=[st], observed=info["classes"]))
+        viol(("class-name", clause, who),
+             lambda: ("object title %r: " % info.get("title") if kind == "title" else "document: ")
+                     + f"classes {[n for n, _ in info['classes']]}"
+                     + (" declared by the generated module" if kind == "doc-module" else "")
+                     + f": {clause} {who!r}" + note,
+             lambda: dict(kind=kind.split("-")[0], states=[st], observed=info["classes"]))
 
 
-def _sweep(table, names, rep, add_event, ev_info):
+def _sweep(table, names, viol, add_attr_event):
     """every code point alone and in the contexts x?, ?x, x?x, _?_ (class-level predictions)"""
     t0 = time.time()
     tpl = nf.sweep_templates(table, names)
-    step = 0x1000
+    step = 0x800
     jobs = [(lo, min(lo + step, 0x110000), table.rec, tpl) for lo in range(0, 0x110000, step)]
     parts = drive.pmap(nf.sweep_range, jobs, chunksize=4)
     tot = dict(calls=0, same=0, by_class=Counter(), model_violations={}, drift_signatures=0,
@@ -522,21 +562,17 @@ def _sweep(table, names, rep, add_event, ev_info):
             raise MachineryError(f"model verdict differs from the interpreter's: {a['gt_mismatch'][:3]}")
         for key, g in a["model_viol"].items():
             k = ("attr", key[0], key[1])
-            if k not in rep.groups:
-                rep.violation(k, f"property name {g['sample'][0]!r} is mapped to {g['sample'][1]!r}: "
-                              f"{key[0]} (class {g['cls']} in context {g['ctx']})",
-                              dict(kind="trace", names=[g["sample"][0]], observed=g["sample"][1]))
-                rep.groups[k]["count"] += g["count"] - 1
-            else:
-                rep.groups[k]["count"] += g["count"]
+            viol(k, lambda: f"property name {g['sample'][0]!r} is mapped to {g['sample'][1]!r}: "
+                            f"{key[0]} (class {g['cls']} in context {g['ctx']})",
+                 lambda: dict(kind="trace", names=[g["sample"][0]], observed=g["sample"][1]),
+                 n=g["count"])
             tot["model_violations"]["|".join(k)] = tot["model_violations"].get("|".join(k), 0) + g["count"]
         for key, g in a["drift"].items():
             d = drift.setdefault(key, dict(count=0, sample=g["sample"]))
             d["count"] += g["count"]
     for key, d in drift.items():
         s, real, exp = d["sample"]
-        text, _, _ = nf.attr_event(table, real)
-        add_event(text, kind="sweep", s=s, attr=real, count=d["count"], exp=exp)
+        add_attr_event(real, True, kind="sweep", s=s, exp=exp, count=d["count"])
         tot["drift_calls"] += d["count"]
     tot["drift_signatures"] = len(drift)
     tot["by_class"] = dict(tot["by_class"])
